@@ -221,6 +221,11 @@ class Run:
         self.rankings = None
 
     @property
+    def complete(self):
+        "the count ran to its end (no exception, no budget overrun)"
+        return self.error is None and not self.timed_out and self.phase == 'done'
+
+    @property
     def rule(self):
         return self.E.rule.name if self.E is not None else (self.options or {}).get('rule')
 
